@@ -23,6 +23,50 @@ LEVEL_TEXT = (
 PRIMS = ("_init", "_put", "_get")
 
 
+def skip_decision(ctx, RS, q=None):
+    """put() delegates iff (_last_item is None or item != _last_item) and reads nothing else (shared with C01 / C04: a queue that
+    skips anything but a pending duplicate drops an event)."""
+    P = ctx.P
+    field = "_last_item"
+    q = q or P.cls("SkipRepeatsQueue")
+    en = Enumerator(Cfg(P))
+    pf = q.methods.get("put")
+    if pf is None:
+        raise AnalysisError("anchor vanished: SkipRepeatsQueue.put")
+    paths = en.run(pf)
+    ctx.count("paths", len(paths))
+    names_ok = True
+    for n in ast.walk(pf.node):
+        if isinstance(n, (ast.If, ast.IfExp, ast.While)):
+            used = {dotted(x) for x in ast.walk(n.test) if isinstance(x, (ast.Name, ast.Attribute)) and dotted(x)}
+            used = {u for u in used if u not in ("self",)}
+            if not used <= {"item", f"self.{field}", "None"}:
+                names_ok = False
+    ctx.check(names_ok, RS, "SkipRepeatsQueue.put decision inputs", "the skip decision reads something other than item and _last_item", pf.loc)
+    ok, msg = True, ""
+    for p in paths:
+        deleg = [e for e in p.evs if e.kind == "call" and e.extra.get("func") == "super().put"]
+        a = p.conds().get(f"self.{field} is None")
+        b = None
+        for k, v in p.conds().items():
+            if re.fullmatch(rf"item == self\.{field}|self\.{field} == item", k):
+                b = v
+        should = (a is True) or (b is False)
+        if a is None and b is None:
+            ok, msg = False, "put() does not test _last_item at all"
+            break
+        if should and len(deleg) != 1:
+            ok, msg = False, f"put() drops an item that is not a duplicate of the pending last item (path: {p.sig()})"
+        if not should and deleg:
+            ok, msg = False, f"put() enqueues a duplicate of the pending last item (path: {p.sig()})"
+        for d in deleg:
+            if (d.extra.get("args") or [""])[0] != "item":
+                ok, msg = False, "put() delegates something other than the item"
+    ctx.check(ok, RS, "SkipRepeatsQueue.put truth table", msg, pf.loc)
+    ctx.sample({"put_paths": [p.sig() for p in paths]})
+
+
+
 def run(ctx) -> None:
     P = ctx.P
     RB = ctx.rule("C16/bookkeeping-in-critical-section", "_last_item is written only inside _init/_put/_get (run by queue.Queue with its mutex held)", floor=2)
@@ -104,41 +148,7 @@ def run(ctx) -> None:
                     ok3, msg = False, "_get does not return the item it dequeued"
             ctx.check(ok3, RR, "SkipRepeatsQueue._get", msg, mf.loc)
 
-    # ---- put: delegation truth table
-    pf = q.methods.get("put")
-    if pf is None:
-        raise AnalysisError("anchor vanished: SkipRepeatsQueue.put")
-    paths = en.run(pf)
-    ctx.count("paths", len(paths))
-    names_ok = True
-    for n in ast.walk(pf.node):
-        if isinstance(n, (ast.If, ast.IfExp, ast.While)):
-            used = {dotted(x) for x in ast.walk(n.test) if isinstance(x, (ast.Name, ast.Attribute)) and dotted(x)}
-            used = {u for u in used if u not in ("self",)}
-            if not used <= {"item", f"self.{field}", "None"}:
-                names_ok = False
-    ctx.check(names_ok, RS, "SkipRepeatsQueue.put decision inputs", "the skip decision reads something other than item and _last_item", pf.loc)
-    ok, msg = True, ""
-    for p in paths:
-        deleg = [e for e in p.evs if e.kind == "call" and e.extra.get("func") == "super().put"]
-        a = p.conds().get(f"self.{field} is None")
-        b = None
-        for k, v in p.conds().items():
-            if re.fullmatch(rf"item == self\.{field}|self\.{field} == item", k):
-                b = v
-        should = (a is True) or (b is False)
-        if a is None and b is None:
-            ok, msg = False, "put() does not test _last_item at all"
-            break
-        if should and len(deleg) != 1:
-            ok, msg = False, f"put() drops an item that is not a duplicate of the pending last item (path: {p.sig()})"
-        if not should and deleg:
-            ok, msg = False, f"put() enqueues a duplicate of the pending last item (path: {p.sig()})"
-        for d in deleg:
-            if (d.extra.get("args") or [""])[0] != "item":
-                ok, msg = False, "put() delegates something other than the item"
-    ctx.check(ok, RS, "SkipRepeatsQueue.put truth table", msg, pf.loc)
-    ctx.sample({"put_paths": [p.sig() for p in paths]})
+    skip_decision(ctx, RS, q)
 
     # ---- event equality
     evm = P.module("watchdog.events")
